@@ -169,6 +169,44 @@ impl SharedBlockstore {
 impl BlockstoreRead {
     #[verifier::external_body]
     pub fn cached_commitment(&self, slot: Slot, slice: SliceIndex) -> (r: Option<SliceCommitment>) { unimplemented!() }
+    // "the store holds a shred of slice s of block id" (BlockstoreImpl::has_slice in unit blockdata)
+    pub uninterp spec fn has_slice(&self, id: BlockId, s: SliceIndex) -> bool;
+    // The contracts of the next three queries are ASSUMED here and PROVED on the real BlockstoreImpl bodies in unit blockdata.
+    #[verifier::external_body]
+    pub fn get_last_slice_index(&self, block_id: &BlockId) -> (r: Option<SliceIndex>) { unimplemented!() }
+    #[verifier::external_body]
+    pub fn get_slice_root(&self, block_id: &BlockId, slice_index: SliceIndex) -> (r: Option<SliceRoot>)
+        ensures r is Some ==> self.has_slice(*block_id, slice_index)
+    { unimplemented!() }
+    // MerkleTree::create_proof asserts that the index lies within the tree: safe only for a slice the store holds
+    #[verifier::external_body]
+    pub fn create_double_merkle_proof(&self, block_id: &BlockId, slice_index: SliceIndex) -> (r: Option<DoubleMerkleProof>)
+        requires
+            // [C14.proof_requested_only_for_a_held_slice C10.proof_requested_only_for_a_held_slice]
+            self.has_slice(*block_id, slice_index),
+    { unimplemented!() }
+    #[verifier::external_body]
+    pub fn get_shred(&self, block_id: &BlockId, slice_index: SliceIndex, shred_index: ShredIndex) -> (r: Option<&ValidatedShred>)
+        ensures r matches Some(v) ==> v.spec_shred().spec_payload().header.slot == block_id.0
+            && v.spec_shred().spec_payload().header.slice_index == slice_index && v.spec_shred().spec_payload().shred_index == shred_index
+    { unimplemented!() }
+}
+impl Clone for ValidatedShred {
+    #[verifier::external_body]
+    fn clone(&self) -> (r: Self) ensures r == *self { unimplemented!() }
+}
+impl ValidatedShred {
+    #[verifier::external_body]
+    pub fn into_shred(self) -> (r: Shred) ensures r == self.spec_shred() { unimplemented!() }
+}
+/*@ extract src/repair.rs :: struct RepairRequest
+derive
+@*/
+// struct RepairRequestHandler<N: Network> (src/repair.rs): only the blockstore handle is used by try_build_response
+pub struct RepairRequestHandler {
+    pub epoch_info: EpochHandle,
+    pub blockstore: SharedBlockstore,
+    pub network: OtherParts,
 }
 impl SharedPool {
     // `self.pool.write().await.add_block(id, parent).await` (R8); Pool::add_block asserts the parent is in an earlier slot
@@ -352,6 +390,23 @@ loop 1
             self.slice_roots@ == pre.slice_roots@.insert((*block_id, slice), root),
             self.blockstore.stored() == pre.blockstore.stored() && self.epoch_info == pre.epoch_info,
         decreases TOTAL_SHREDS - verif_x,
+@*/
+}
+
+impl RepairRequestHandler {
+/*@ extract src/repair.rs :: impl RepairRequestHandler<N>/fn try_build_response
+props C14 C10
+ret r
+elide-async
+rewrite*[R8] `drop(blockstore);` => ``
+ensures
+        // [C14.answer_quotes_the_request_and_matches_its_kind]
+        r matches Some(resp) ==> resp.req() == request.req_type && (match request.req_type {
+            RepairRequestType::LastSliceRoot(_) => resp is LastSliceRoot,
+            RepairRequestType::SliceRoot(_, _) => resp is SliceRoot,
+            RepairRequestType::Shred(b, sl, i) => resp matches RepairResponse::Shred(_, shred) && shred.spec_payload().header.slot == b.0
+                && shred.spec_payload().header.slice_index == sl && shred.spec_payload().shred_index == i,
+        }),
 @*/
 }
 
